@@ -912,7 +912,7 @@ def c07(tier, rng):
     seeds = ['!!int x: 1\na: b\n', '{!!null no: 1, c: d}\n', 'a: 1\nb: 2\na: 3\n', '&a [1, 2]: x\n*a : y\n', '- &a [*a]\n', '&a {k: *a}\n',
              '? [a, b]\n: 1\n? [a, b]\n: 2\n', '1: a\n0x1: b\n', '1.0: a\n1: b\n', '~: a\nnull: b\n', '&x a: *x\n*x : &x b\n', 'a: &a b\n*a : c\n--- *a\n',
              '!!str 1: a\n"1": b\n', '!!float 1: a\n1.0: b\n', '- !!bool yes\n- x\n', '? !!int q\n: v\nw: z\n', '{a: 1, a: 2, b: 3, a: 4}\n', '[&a x, *a, &a y, *a]\n']
-    texts = seeds + alias_docs(rng.fork('alias'), 6000 if tier == 'quick' else 200000) + c01_space(tier, rng)
+    texts = seeds + typed_scalar_docs() + alias_docs(rng.fork('alias'), 6000 if tier == 'quick' else 200000) + c01_space(tier, rng)
     # the loaders consume the push interface (Parser::load), so that is "the parser" here
     ev = run_impl([f'psh buf 1 {hx(t)}' for t in texts])
     keep = [(t, e) for t, e in zip(texts, ev) if 'PANIC' not in e]
@@ -1009,15 +1009,43 @@ def bad_key_shift(items, resolve):
     return hit
 
 
+def typed_scalar_docs():
+    """every scalar style x chomping x tag around type-like contents, in four positions: the
+    resolution of a scalar must depend on (text, style, tag) in the same way for every node type and mode"""
+    contents = ['12', '-3', '0x1F', '0o17', '1.5', '1e3', '.inf', '-.inf', '.nan', 'true', 'False', 'null', '~', 'Null', '', 'x', '012', '+7', '9223372036854775808']
+    out = []
+    for c in contents:
+        pres = [c, f"'{c}'", f'"{c}"']
+        for hd in ('|', '>', '|-', '>-', '|+', '>+', '|2-'):
+            pres.append(f'{hd}\n    {c}\n' if c else f'{hd}\n')
+            pres.append(f'{hd}\n    {c}' if c else f'{hd}')       # no final line break
+        for tg in ('!!str', '!!int', '!!float', '!!bool', '!!null', '!foo', '!'):
+            pres.append(f'{tg} {c}')
+            pres.append(f'{tg} "{c}"')
+            pres.append(f'{tg} |-\n    {c}\n' if c else f'{tg} |-\n')
+        for q in pres:
+            out.append(q if q.endswith('\n') else q + '\n')
+            out.append('- ' + q + ('' if q.endswith('\n') else '\n') + '- z\n')
+            out.append('k: ' + q + ('' if q.endswith('\n') else '\n'))
+            if '\n' not in q:
+                out.append(q + ': v\n')
+                out.append('[' + q + ', {' + q + ': ' + q + '}]\n')
+            else:
+                out.append('? ' + q + ('' if q.endswith('\n') else '\n') + ': v\n')
+            if not q.endswith('\n'):
+                out.append('- ' + q)                                  # scalar ends the input without a break
+    return out
+
+
 @prop('C19', ["the four node types are compared on the implementation directly (structure, scalar values, error); marked kinds with spans stripped",
               "lazy load + parse_representation_recursive is compared with the eager load on the implementation",
               "equality/hash of marked nodes ignoring spans is exercised through mappings keyed by marked nodes (C20 covers the hash stream)"])
 def c19(tier, rng):
     res = Result()
-    res.rule = "accepted and rejected inputs of the C01 space; 4 node kinds x {eager, lazy, lazy+resolve}; non-trivial = a document with a collection; distinct by text"
+    res.rule = "every scalar style x chomping x tag around type-like contents in four positions; accepted and rejected inputs of the C01 space; 4 node kinds x {eager, lazy, lazy+resolve}; non-trivial = a document with a collection; distinct by text"
     res.corr_ops = ['lod <kind> <mode> for all 4 kinds and 3 modes']
     seeds = ['a: [1, x]\n', '- 1\n- 0x2\n', '[~, true, 1.5, "s"]\n', '!!int x\n', '{1: a, 0x1: b}\n', '- - - 1\n', '&a [1]\n', 'k: !!float 1\n', "- '1'\n- \"2\"\n- |\n 3\n"]
-    texts = seeds + alias_docs(rng.fork('alias'), 3000 if tier == 'quick' else 100000) + c01_space(tier, rng, 0.6)
+    texts = seeds + typed_scalar_docs() + alias_docs(rng.fork('alias'), 3000 if tier == 'quick' else 100000) + c01_space(tier, rng, 0.6)
     reqs = []
     for t in texts:
         h = hx(t)
@@ -1193,9 +1221,21 @@ def c08(tier, rng):
              '1.7976931348623157e308', '1.7976931348623159e308', '4.9e-324', '2.5e-324', '0.1', '.5', '5.', '+.5', '-.5e-3', '1_000', '0b101', '1e', 'e1', '.e1', '1.e1', '0.0', '-0', '-0.0', '+0',
              'inf', '-inf', '+inf', 'Inf', 'INF', 'infinity', 'Infinity', '-Infinity', 'nan', 'NaN', 'NAN', '-nan', '.inf', '-.inf', '+.inf', '.Inf', '.INF', '.nan', '.NaN', '.NAN', '.Nan', '.iNF',
              'null', 'Null', 'NULL', 'nULL', '~', 'true', 'True', 'TRUE', 'false', 'False', 'FALSE', 'yes', 'no', 'on', 'off', '', ' 1', '1 ', '0x', '0o', '0x1G', '0o8', '0X1F', '0O17', '١٢٣', '１２']
+    # decorated literal words: every case pattern of the schema's words behind every sign/dot/radix
+    # prefix and before a few suffixes (signed nan, '+.Inf', '-Null', '0xtrue', '.inf.', ...)
+    def cases(w):
+        out = ['']
+        for ch in w:
+            out = [o + c for o in out for c in ({ch.lower(), ch.upper()})]
+        return out
+    words = [v for w in ('inf', 'nan', 'null', 'true', 'false') for v in cases(w)] + ['~', '0', '1', '17', '1.5', '1e3', 'infinity', 'Infinity', 'INFINITY']
+    pre = ['', '+', '-', '.', '+.', '-.', '0x', '0o', '++', '--', '+-', '-+', ' ', '0', '..']
+    suf = ['', '.', '0', 'e', ' ', 'e1', '_', '.0']
+    deco = sorted({a + w + z for a in pre for w in words for z in suf})
+    bound += sorted({a + w for a in ('', '+', '-', '.', '+.', '-.') for w in ('inf', 'Inf', 'INF', 'iNf', 'nan', 'NaN', 'NAN', 'Nan', 'nAN', 'null', 'Null', 'true', 'True', 'FALSE')} - set(bound))
     rr = rng.fork('r')
     rand = [''.join(rr.choice(ALPHA32 + list('23456bcdBCDE')) for _ in range(rr.randint(6, 24))) for _ in range(20000 if tier == 'quick' else 400000)]
-    plain = texts + bound + rand
+    plain = texts + bound + deco + rand
     reqs = [f'res P - {hx(t)}' for t in plain]
     # styles x tags on the shorter strings
     tags = ['-', CORE + '!' + hx('int'), CORE + '!' + hx('float'), CORE + '!' + hx('bool'), CORE + '!' + hx('null'), CORE + '!' + hx('str'), hx('!') + '!' + hx('foo')]
@@ -1688,7 +1728,7 @@ def c18(tier, rng):
     res = Result()
     L = 4 if tier == 'quick' else 6
     res.rule = f"texts (ASCII, Latin, CJK, astral; lengths 0..4k, mostly short) x 6 encodings x 4 traps; every byte string of length <= {L} over the ten bytes of the property x 4 traps; random and truncated byte strings; non-trivial = a non-empty byte string; distinct by (bytes, trap)"
-    res.corr_ops = ['sniff (encoding detection) as reported by dec']
+    res.corr_ops = ['snf (detect_utf16_endianness vs Encoding.detectUtf16: every byte string of the run and all one- and two-byte prefixes)']
     r = rng.fork('c18')
     pools = ['ab:- [],\n', 'aé ü\n', 'a中文字-\n', 'a\U0001D11E\U0001F600 \n', 'k: v\n- a\n']
     texts = ['\0a', 'a\0: b', 'a\0b', '', 'a', '-', '- a', 'a: b', 'a: é', '- 中', '-中中中', '-中中中中', '-中中中中中', '- \U0001D11E', '[1, 2]', 'a\n', 'é', ' a']
@@ -1698,6 +1738,11 @@ def c18(tier, rng):
         first = r.choice('a-k[ "')
         t = (first + ''.join(r.choice(pool) for _ in range(max(n - 1, 0)))) if n else ''
         texts.append(t)
+    # every ASCII character in first position (the sniffing rules look at the first code unit), before
+    # ASCII, Latin, CJK and astral continuations
+    for cp in range(1, 128):
+        for tail in ('', 'a: 1\n', '\n- é\n', ' 中\n', '\r\n- \U0001F600\n'):
+            texts.append(chr(cp) + tail)
     reqs, meta = [], []
     ref = run_impl([f'lod y e {hx(t)}' for t in texts])
     for t, rf in zip(texts, ref):
@@ -1729,6 +1774,16 @@ def c18(tier, rng):
         reqs.append(f'dec {trap} {hxb(bytes(b))}')
         meta.append(('bytes', bytes(b), None, trap, None))
     impl = run_impl(reqs)
+    # correspondence of the sniffing model (Encoding.detectUtf16): every byte string of the run, plus
+    # every two-byte prefix
+    import itertools as _it
+    sn = sorted({q.split(' ')[2] if len(q.split(' ')) > 2 else '' for q in reqs} | {'%02x%02x' % (a, b) for a in range(256) for b in range(256)} | {'%02x' % a for a in range(256)})
+    sreq = [f'snf {h}'.rstrip() for h in sn]
+    si, sm = run_impl(sreq), run_model(sreq)
+    for q, a, b in zip(sreq, si, sm):
+        res.evaluations += 1
+        if a.split(' ')[0] != b.split(' ')[0]:
+            diff(res, q, a, b, 'snf')
     for n, (kind, x, name, trap, rf) in enumerate(meta):
         res.evaluations += 1
         a = impl[n]
@@ -1764,7 +1819,8 @@ def c18(tier, rng):
 # C20: lookups, equality, hashing
 
 KEYS20 = ['a', 'b', 'key', '1', '01', '1.0', '1.5', 'true', 'false', 'null', '~', '"1"', "'true'", '"a"', '!!str 1', '!!str true', '!!int 1', '[a]', '{a: b}', '[]', '""', "''",
-          'é', '"\\n"', 'a b', '0x1', '.inf', '!!float 1', '!foo a', '&x a', '? ', '-1', '+1', '2', '0', '3']
+          'é', '"\\n"', 'a b', '0x1', '.inf', '!!float 1', '!foo a', '&x a', '? ', '-1', '+1', '2', '0', '3', '-2', '-3',
+          '-9223372036854775808', '9223372036854775807', '-9223372036854775807', '7', '-7']
 PROBES20 = ['a', 'b', 'key', '1', '01', '1.0', '1.5', 'true', 'false', 'null', '~', '', 'é', '\n', 'a b', '0x1', '.inf', 'absent', 'A', ' a', '[a]', '{a: b}', '-1', '+1', '2', '0']
 
 
@@ -1792,7 +1848,7 @@ def top_pairs(tokens):
 def c20(tier, rng):
     res = Result()
     res.rule = "random flow mappings over a pool of 36 key spellings (strings, numbers, null, booleans, quoted, tagged, anchored, collection and empty keys) x probes drawn from the keys' texts and absent strings x 4 node kinds x {eager, lazy}; integer indexing of sequences and mappings; non-trivial = mapping with at least two keys; distinct by (text, probe, kind, mode)"
-    res.corr_ops = ['lod (the loaded mapping) — the lookup itself is compared with the expectation computed from the dump']
+    res.corr_ops = ['get (the four string lookups and integer indexing: Lookup.lean vs the four node types)', 'lod (the loaded mapping)']
     r = rng.fork('c20')
     cases = []
     for _ in range(6000 if tier == 'quick' else 250000):
@@ -1807,7 +1863,7 @@ def c20(tier, rng):
                     ks.append(k)
             text = '{' + ', '.join(f'{k}: v{i}' for i, k in enumerate(ks)) + '}\n'
         probe = r.choice(PROBES20)
-        idx = r.choice(['-', '0', '1', '2', '3', '7'])
+        idx = r.choice(['-', '0', '1', '2', '3', '7', '9223372036854775807', '9223372036854775808', '9223372036854775809', '18446744073709551615', '18446744073709551614', '18446744073709551613', '18446744073709551609'])
         nk = r.choice(['y', 'yo', 'm', 'mo'])
         mode = 'e' if r.chance(4, 5) else 'l'
         cases.append((text, probe, idx, nk, mode))
@@ -1816,11 +1872,25 @@ def c20(tier, rng):
         reqs += [f'get {nk} {mode} {hx(probe)} {idx} {hx(text)}', f'lod y {mode} {hx(text)}']
     impl = run_impl(reqs)
     model = run_model([reqs[i] for i in range(1, len(reqs), 2)])
+    gmodel = run_model([reqs[i] for i in range(0, len(reqs), 2)])
+    def canon_get(line):
+        # the five lookup answers, floats canonicalised like tree dumps
+        out = []
+        for fld in line.split(' '):
+            k, _, v = fld.partition('=')
+            if k in ('get', 'contains', 'index', 'explicit', 'int'):
+                v = '|'.join(canon_tree_line('OK ' + part.replace(';', ' '))[3:].replace(' ', ';') if part not in ('-', 'PANIC', 'true', 'false') else part for part in v.split('|'))
+                out.append(k + '=' + v)
+        return ' '.join(out)
     for n, (text, probe, idx, nk, mode) in enumerate(cases):
         res.evaluations += 1
         a, d = impl[2 * n], impl[2 * n + 1]
         if canon_tree_line(model[n]) != d:
             diff(res, reqs[2 * n + 1], d, model[n], 'lod')
+        if '=' in a and canon_get(a) != canon_get(gmodel[n]):
+            diff(res, reqs[2 * n], a, gmodel[n], 'get')
+        elif '=' not in a and a != gmodel[n] and 'PANIC' not in a and not a.startswith('CRASH'):
+            diff(res, reqs[2 * n], a, gmodel[n], 'get')
         if a in ('LOADERR', 'NODOC') or not d.startswith('OK'):
             res.count('not-loaded')
             continue
@@ -1881,7 +1951,7 @@ def c11(tier, rng):
     res = Result()
     # powers of two are where fixed-width counters wrap: 2^8 (flow level), 2^16
     depths = [1, 10, 100, 255, 256, 257, 1000, 10000, 30000, 65535, 65536, 70000] + ([100000, 140000] if tier == 'thorough' else [])
-    res.rule = f"nesting depth in {depths} x shape (block sequence, block mapping, explicit key, flow sequence, flow mapping, alternating) x API (iterator, push, load_from_str + drop, emit); non-trivial = depth >= 10"
+    res.rule = f"nesting depth in {depths} x shape (block sequence, block mapping, explicit key, flow sequence, flow mapping, alternating) x API (iterator, push, load_from_str + drop, emit); plus one-line mixtures: 31 fixed and random units of block/flow indicators and properties ('- ', '? ', ': ', '- : ', ': ? ', '- &a ', '[(a: ', ...) repeated to depth 10..100000 x iterator/push/loader; non-trivial = depth >= 10"
     res.corr_ops = []
     def run(api, shape, depth):
         try:
@@ -1894,6 +1964,25 @@ def c11(tier, rng):
             if not (api == 'emit' and shape != 'seq') and not (shape == 'map' and d > 10000)
             # loading nested complex keys re-hashes the whole key at every level (quadratic; recorded under C01): capped
             and not (api == 'loaddrop' and shape in ('key', 'alt') and d > 10000)]
+    # compact one-line mixtures: a unit of block indicators / properties repeated per level
+    units = ['- ', '? ', ': ', '- ? ', '- : ', '? : ', ': ? ', ': - ', '? - ', '- - : ', ': : - ', '- &a ', '- !t ', ': &a ',
+             '? !t ', ':  ', '-\t', '? &a : ', '- ? : ', '&a ? ', '!t : ', '[', '{', '{a: ', '[{a: ', '{a: [', '[[{a: ', '{? ', '[? ', '[: ', '{: ']
+    ru = rng.fork('units')
+    atoms = ['- ', '? ', ': ', '&a ', '!t ', ' ', '-\t', '? : ']
+    for _ in range(12 if tier == 'quick' else 60):
+        u = ''.join(ru.choice(atoms) for _ in range(ru.randint(2, 4)))
+        if u.strip() and u not in units:
+            units.append(u)
+    mdepths = [10, 3000, 30000, 100000] if tier == 'quick' else [10, 1000, 6000, 30000, 100000, 200000]
+    for u in units:
+        shape = f'rep:{hx(u)}:{hx("a")}'
+        for d in mdepths:
+            jobs.append(('iter', shape, d))
+            jobs.append(('load', shape, d))
+            # the loaders: below the depth where releasing the tree recurses too deep (recorded), and
+            # without nested complex keys (quadratic, recorded under C01)
+            if d * max(1, sum(u.count(c) for c in '-?:[{')) <= 30000 and '?' not in u:
+                jobs.append(('loaddrop', shape, d))
     from concurrent.futures import ThreadPoolExecutor
     with ThreadPoolExecutor(max_workers=8) as ex:
         rcs = list(ex.map(lambda j: run(*j), jobs))
